@@ -40,7 +40,7 @@ type ids struct {
 	C0       b6.FeatureID    // base collection
 	Q        b6.FeatureID    // overlay point
 	W1, W2   b6.FeatureID    // overlay paths
-	W3       b6.FeatureID    // overlay closed path by lat-lngs
+	W3       b6.FeatureID    // overlay closed path over base points
 	A1, A2   b6.FeatureID
 	A3       b6.FeatureID
 	R1, C1   b6.FeatureID
